@@ -1,6 +1,7 @@
 package main
 
 import (
+	"os"
 	"regexp"
 	"bytes"
 	"fmt"
@@ -280,8 +281,31 @@ func runC03(c *Ctx) {
 	// carries the tag of C, for which packets are queued. The history runs on a real Server/Listener
 	// (hooks and model of C15, op `srv`); every packet queued for C must be handed out exactly once.
 	c.Cases("relay", c.N(250, 4000), func(r *Rng, i int) {
+		limits.Frag, limits.Packets = saveF, saveP // the budgets of the build, not what the last case above left behind
 		ids := []device.ID{c15RandID(r), c15RandID(r), c15RandID(r), c15RandID(r)}
 		steps, queued := c15RelaySteps(r, ids)
+		tight := r.Chance(30)
+		if tight {
+			// a size budget of four bare packets per transmission: the fifth is carried over (Session.peek)
+			// and must go out with the proxy's next poll although nothing is queued behind it. The routing
+			// model has no budgets: these histories are judged by the oracle only.
+			limits.Frag = 200
+			hello := func(d int) c15Step {
+				return c15Step{kind: 'T', pkt: c15Pkt{c15Sub: c15Sub{dev: d, pid: c2.SvHello, job: uint16(1 + r.Intn(65000)), pay: 'h'}}}
+			}
+			steps, queued = []c15Step{hello(0), hello(1)}, nil
+			for k := 0; k < 5+r.Intn(2); k++ {
+				lf := c15Leaf{dev: ids[1], pid: []uint8{0x14, 0xC8, 7, 9}[r.Intn(4)], job: uint16(2 + r.Intn(60000))}
+				queued = append(queued, lf)
+				steps = append(steps, c15Step{kind: 'Q', id: 1, leaf: lf})
+			}
+			for k := 0; k < 5; k++ {
+				b := c15Pkt{c15Sub: c15Sub{dev: 0, pid: 0, job: 0, pay: 'e'}}
+				b.tags = []c15Tag{{idx: 1}}
+				steps = append(steps, c15Step{kind: 'T', pkt: b})
+			}
+			c.Count("relay:tight-budget")
+		}
 		hexids := make([]string, len(ids))
 		for k := range ids {
 			hexids[k] = hx(ids[k][:])
@@ -292,7 +316,11 @@ func runC03(c *Ctx) {
 		}
 		op := "srv " + strings.Join(hexids, ",") + " " + strings.Join(toks, " ")
 		ans := c15RunServer(c, ids, steps, op)
-		c.Op(op, ans)
+		if !tight {
+			c.Op(op, ans)
+		} else if os.Getenv("VERIF_C03_DEBUG") != "" {
+			fmt.Fprintln(os.Stderr, "TIGHT", strings.Join(toks, " "), "=>", ans)
+		}
 		replies := ans
 		if k := strings.LastIndex(ans, " | tbl="); k >= 0 {
 			replies = ans[:k]
